@@ -109,3 +109,44 @@ Example ehd_object_example :
   = Some (Some (fence ++ nl ++ "{" ++ nl ++ "  a = string # optional, sensitive" ++ nl ++ "  b = list(number) # optional" ++ nl
                 ++ "  c = bool # sensitive" ++ nl ++ "  d = {}" ++ nl ++ "}" ++ nl ++ fence ++ nl)).
 Proof. vm_compute. reflexivity. Qed.
+
+(* ---- collections: the description of a list / set / map is the wrapper around the description of its element ---- *)
+Lemma wrap1_spec name r s : wrap1 name r = Some (Some s) -> exists s', r = Some (Some s') /\ s = name ++ "(" ++ s' ++ ")".
+Proof.
+  destruct r as [[x|]|]; cbn; intro H; try discriminate. injection H as <-. exists x. split; reflexivity.
+Qed.
+
+Theorem ehd_collection_wraps_element f c lvl s :
+  ehd (S f) c lvl = Some (Some s) ->
+  match c with
+  | CList (Some e) _ _ => exists s', ehd f e lvl = Some (Some s') /\ s = "list(" ++ s' ++ ")"
+  | CSet (Some e) _ _ => exists s', ehd f e lvl = Some (Some s') /\ s = "set(" ++ s' ++ ")"
+  | CMap (Some e) _ _ _ _ => exists s', ehd f e lvl = Some (Some s') /\ s = "map(" ++ s' ++ ")"
+  | CList None _ _ | CSet None _ _ | CMap None _ _ _ _ => False
+  | _ => True
+  end.
+Proof.
+  destruct c; try exact (fun _ => I); cbn [ehd]; destruct e as [ec|]; intro H; try discriminate;
+    apply wrap1_spec in H; exact H.
+Qed.
+
+(* a tuple lists the descriptions of all its elements, in order, at the same level *)
+Lemma tuple_hd_spec rec lvl : forall l acc r,
+  tuple_hd rec lvl l acc = Some (Some r) ->
+  exists ds, r = List.app (rev acc) ds /\ Forall2 (fun e d => rec e lvl = Some (Some d)) l ds.
+Proof.
+  induction l as [|e l IH]; intros acc r H; cbn [tuple_hd] in H.
+  - injection H as <-. exists []. split; [rewrite app_nil_r; reflexivity | constructor].
+  - destruct (rec e lvl) as [[d|]|] eqn:Er; try discriminate.
+    apply IH in H as (ds & -> & Hf). exists (d :: ds). split.
+    + cbn [rev]. rewrite <- app_assoc. reflexivity.
+    + constructor; assumption.
+Qed.
+
+Theorem ehd_tuple_lists_elements f es lvl s :
+  ehd (S f) (CTuple es) lvl = Some (Some s) ->
+  exists ds, s = "tuple([" ++ join ", " ds ++ "])" /\ Forall2 (fun e d => ehd f e lvl = Some (Some d)) es ds.
+Proof.
+  cbn [ehd]. destruct (tuple_hd (ehd f) lvl es []) as [[l|]|] eqn:Et; intro H; try discriminate.
+  injection H as <-. apply tuple_hd_spec in Et as (ds & -> & Hf). exists ds. split; [reflexivity | exact Hf].
+Qed.
